@@ -15,6 +15,7 @@ import (
 	"go/token"
 	"go/types"
 	"os"
+	"regexp"
 	"runtime/debug"
 	"sort"
 	"strings"
@@ -549,8 +550,15 @@ func (in *Interp) idxSel(idx *Val) string {
 	if strings.HasPrefix(idx.Sym, "iv") && !strings.ContainsAny(idx.Sym, "(,") {
 		return "[" + idx.Sym + "]"
 	}
+	// an index computed from loop variables and constants only (j*4+i): kept as an expression selector, so that a
+	// flat index can be related to the windows it walks through
+	if affineSym.MatchString(idx.Sym) && strings.Contains(idx.Sym, "iv") {
+		return "[e:" + idx.Sym + "]"
+	}
 	return "[?]"
 }
+
+var affineSym = regexp.MustCompile(`^[-+*(),0-9iv]+$`)
 
 func (in *Interp) load(ptr *Val) *Val {
 	if ptr == nil {
